@@ -6,6 +6,7 @@ import (
 	"go/token"
 	"io/fs"
 	"path/filepath"
+	"regexp"
 	"sort"
 	"strconv"
 	"strings"
@@ -57,7 +58,8 @@ func genSurface() {
 	forwardIdents := map[string]bool{"XForwardedProto": true, "XForwardedHost": true, "XForwardedURI": true}
 
 	cookieAttr := map[string]bool{"Secure": true, "HttpOnly": true, "SameSite": true, "Domain": true, "MaxAge": true, "Expires": true}
-	var cookieSites, forwardSites []string
+	var cookieSites, forwardSites, headerSites, credSites []string
+	headerRecv := regexp.MustCompile(`(?i)headers?(\(\))?$`)
 	clean := func(s string) string {
 		s = strings.Join(strings.Fields(s), " ")
 		return strings.ReplaceAll(strings.ReplaceAll(s, `"`, `'`), `\`, `/`)
@@ -119,6 +121,33 @@ func genSurface() {
 						cookieSites = append(cookieSites, fmt.Sprintf("%s|%s|construct|MakeCookieFromOptions", rel, fn))
 					} else if id, ok := v.Fun.(*ast.Ident); ok && id.Name == "MakeCookieFromOptions" {
 						cookieSites = append(cookieSites, fmt.Sprintf("%s|%s|construct|MakeCookieFromOptions", rel, fn))
+					}
+					if se, ok := v.Fun.(*ast.SelectorExpr); ok && (se.Sel.Name == "Set" || se.Sel.Name == "Add" || se.Sel.Name == "Del") &&
+						!strings.HasPrefix(rel, "providers/") && !strings.HasPrefix(rel, "pkg/requests/") {
+						recv := clean(exprText(rel, se.X))
+						if headerRecv.MatchString(recv) {
+							arg := ""
+							if len(v.Args) > 0 {
+								arg = clean(exprText(rel, v.Args[0]))
+							}
+							headerSites = append(headerSites, fmt.Sprintf("%s|%s|%s.%s|%s", rel, fn, recv, se.Sel.Name, arg))
+						}
+					}
+					if se, ok := v.Fun.(*ast.SelectorExpr); ok {
+						switch {
+						case se.Sel.Name == "Cookie" && len(v.Args) == 1:
+							credSites = append(credSites, fmt.Sprintf("%s|%s|read|%s.Cookie(%s)", rel, fn, clean(exprText(rel, se.X)), clean(exprText(rel, v.Args[0]))))
+						case se.Sel.Name == "Cookies" && len(v.Args) == 0:
+							recv := clean(exprText(rel, se.X))
+							if i := strings.Index(recv, "{"); i >= 0 {
+								recv = recv[:i] + "{..})"
+							}
+							credSites = append(credSites, fmt.Sprintf("%s|%s|read-all|%s.Cookies()", rel, fn, recv))
+						case calleeName(v) == "encryption.Validate":
+							credSites = append(credSites, fmt.Sprintf("%s|%s|validate|encryption.Validate", rel, fn))
+						case calleeName(v) == "encryption.SignedValue":
+							credSites = append(credSites, fmt.Sprintf("%s|%s|sign|encryption.SignedValue", rel, fn))
+						}
 					}
 					switch calleeName(v) {
 					case "http.SetCookie":
@@ -194,6 +223,8 @@ func genSurface() {
 	}
 	emit("cookie_surface", cookieSites)
 	emit("forwarded_surface", forwardSites)
+	emit("header_surface", headerSites)
+	emit("credential_surface", credSites)
 
 	// accessor shapes
 	const utilRel = "pkg/requests/util/util.go"
